@@ -269,15 +269,19 @@ namespace {
             cost_op = "@";
           if (post->has_flags(POST_COST_VIRTUAL))
             cost_op = "(" + cost_op + ")";
+          // `@ =$5.00' fixes the lot price; without the `=' the text would
+          // read back as an ordinary, floating cost
+          string fixated(post->has_flags(POST_COST_FIXATED) ? "=" : "");
 
           if (post->has_flags(POST_COST_IN_FULL))
-            amtbuf << " " << cost_op << " " << post->given_cost->abs();
+            amtbuf << " " << cost_op << " " << fixated
+                   << post->given_cost->abs();
           else if (post->amount.is_realzero())
             // no per-unit price can be recovered from a zero amount
             amtbuf << " " << (post->has_flags(POST_COST_VIRTUAL) ? "(@@)" : "@@")
-                   << " " << post->given_cost->abs();
+                   << " " << fixated << post->given_cost->abs();
           else
-            amtbuf << " " << cost_op << " "
+            amtbuf << " " << cost_op << " " << fixated
                    << (*post->given_cost / post->amount).abs();
         }
 
